@@ -299,8 +299,15 @@ func (e *Evaluator) evalExpr(expr Expr) (*Cell, error) {
 					return nil, e.error(exp.Token(), err.Error())
 				}
 
+				// a bound name is a variable of its own, not another name for the
+				// place that was matched: scalars are copied as on assignment
+				// (arrays and objects stay shared)
 				for k, v := range bindings {
-					e.stackTop.locals[k] = v
+					bound := &Cell{Value: v.Value}
+					if copied, err := copyValue(v, &Cell{}); err == nil {
+						bound = copied
+					}
+					e.stackTop.locals[k] = bound
 				}
 
 				// the bindings' frame is dropped however the body ends (a value,
